@@ -25,24 +25,26 @@ class RequestCase(Case):
     family = "requests"
 
     def __init__(self, cid, *, mode, R, P=2, K=1, C=0, B=1, N=2, zero=(), var_scaler=False, obj_scaler=False,
-                 con_scaler=False, filters=(), obj_filt=None, memo=False, nan_row=None, readonly=False):
+                 con_scaler=False, filters=(), obj_filt=None, memo=False, nan_row=None, readonly=False, rounds=1):
         """mode: functions | both | split (functions, then a gradient-only request at the same point)"""
         self.id = cid
         self.mode, self.R, self.P, self.K, self.C, self.B, self.N = mode, R, P, K, C, B, N
         self.zero = tuple(zero)
         self.var_scaler, self.obj_scaler, self.con_scaler = var_scaler, obj_scaler, con_scaler
         self.filters, self.obj_filt, self.memo, self.nan_row = filters, obj_filt, memo, nan_row
+        self.rounds = rounds       # split mode: (functions, gradient) pairs at successive points on one evaluator object
+        assert rounds == 1 or (mode == "split" and not memo)
         self.readonly = readonly   # the evaluator hands out read-only arrays (views of buffers it refills later)
         self.family = "requests/" + ("memoizing-evaluator" if memo else mode)
         rng = np.random.default_rng([R, P, N, 3])
         self.design = np.round(rng.uniform(-1, 1, (R, P, N)) * 64) / 64
         self.cfg0 = ens.ensemble_config(N=N, R=R, P=P, K=K, C=C, rmin=1, pmin=1, filters=filters, obj_filt=obj_filt,
                                         x0=[0.25] * N)
-        self.ncalls = {"functions": 1, "both": 1, "split": 2}[mode] * (2 if memo else 1)
+        self.ncalls = {"functions": 1, "both": 1, "split": 2 * rounds}[mode] * (2 if memo else 1)
 
     def describe(self):
         return (f"mode={self.mode} R={self.R} P={self.P} K={self.K} C={self.C} B={self.B} zero_weights={self.zero} "
-                f"scalers(v,o,c)=({self.var_scaler},{self.obj_scaler},{self.con_scaler}) filters={[f['method'] for f in self.filters]} memo={self.memo}")
+                f"scalers(v,o,c)=({self.var_scaler},{self.obj_scaler},{self.con_scaler}) filters={[f['method'] for f in self.filters]} memo={self.memo} rounds={self.rounds}")
 
     def rows_of_call(self, c):
         R, P, B = self.R, self.P, self.B
@@ -63,7 +65,7 @@ class RequestCase(Case):
         if self.mode == "functions":
             x = env.reals("x", (self.B, N), lo=-10, hi=10)
         else:  # the SVD needs concrete perturbation differences: x concrete, transforms still symbolic
-            x = np.array([[SR(Fraction(3 * j + 1, 8)) for j in range(N)]], dtype=object)
+            x = np.array([[SR(Fraction(3 * j + 1 + 2 * t, 8)) for j in range(N)] for t in range(self.rounds)], dtype=object)
         ncalls = self.ncalls if not self.memo else self.ncalls // 2
         val = [env.reals(f"e{c}", (self.rows_of_call(c), F), lo=-100, hi=100) for c in range(ncalls)]
         alt = [env.reals(f"h{c}", (self.rows_of_call(c), F), lo=-100, hi=100) for c in range(ncalls)]
@@ -139,9 +141,13 @@ class RequestCase(Case):
             elif self.mode == "both":
                 results.append(ee.calculate(x, compute_functions=True, compute_gradients=True))
             else:
-                results.append(ee.calculate(x, compute_functions=True, compute_gradients=False))
-                results.append(ee.calculate(x, compute_functions=False, compute_gradients=True))
-        return {"calls": calls, "results": results}
+                for t in range(self.rounds):
+                    xt = env.arr(inp["x"][t])
+                    results.append(ee.calculate(xt, compute_functions=True, compute_gradients=False))
+                    results.append(ee.calculate(xt, compute_functions=False, compute_gradients=True))
+        # what a plan step reports to the user: every result transformed back from the optimizer domain
+        user = [tuple(item.transform_from_optimizer(tr) for item in res) for res in results] if tr is not None else None
+        return {"calls": calls, "results": results, "user_results": user}
 
     def run(self, env, inp):
         a = self._scenario(env, inp, garbage=False)
@@ -187,15 +193,16 @@ class RequestCase(Case):
             # unperturbed rows carry the user-domain image of the requested vector
             for i in range(len(exp_r)):
                 if exp_p is None or exp_p[i] < 0:
-                    bidx = i // R if kind == "f" else 0
+                    bidx = i // R if self.mode == "functions" else ((ci // 2) % self.rounds if self.mode == "split" else 0)
                     props.append((f"call{ci}.row{i}.user_domain_variables",
                                   all_of(close(req[i, j], user(xs[bidx], j)) for j in range(N))))
             # perturbed rows: user-domain image of the reported perturbed vector
             # activity: inactive only if the weight is zero
             for nm, act, n in (("objective", ctx.active_objectives, K), ("constraint", ctx.active_constraints, C)):
-                if act is None:
+                if act is None and (kind != "g" or n == 0):
                     continue
-                av = np.asarray(vals(act), dtype=object)
+                # no flags at all = every entry active
+                av = np.asarray(vals(act), dtype=object) if act is not None else np.full((n, R), SB(True), dtype=object)
                 for f in range(n):
                     for r in range(R):
                         rowsw = self.weights_in_force(a, ci, nm, f)
@@ -203,38 +210,66 @@ class RequestCase(Case):
                         props.append((f"call{ci}.{nm}{f}.r{r}.inactive_only_if_zero_weight", Implies(Not(av[f, r]), exact(wr, ZERO))))
                         if kind == "g":
                             props.append((f"call{ci}.{nm}{f}.r{r}.zero_weight_is_inactive_for_gradient", Implies(exact(wr, ZERO), Not(av[f, r]))))
-        # reported per-realization values are the evaluator's values for the row with that label
-        scale_o = (lambda k, v: v / inp["os"][k]) if self.obj_scaler else (lambda k, v: v)
-        for ri, res in enumerate(a["results"]):
-            for item in res:
-                ev = item.evaluations
-                call = a["calls"][min(ri, len(a["calls"]) - 1)] if self.mode != "split" else a["calls"][ri]
-                given = call["given"]["out"]
-                if hasattr(ev, "perturbed_objectives"):
-                    po = np.asarray(vals(ev.perturbed_objectives), dtype=object)
-                    off = R if self.mode == "both" else 0
-                    for r in range(R):
-                        for p in range(P):
-                            row = given[off + r * P + p]
+        # reported per-realization values are the evaluator's values for the row with that label:
+        # in the optimizer domain (scaled by the user's transforms) and, transformed back, in the user domain
+        ident = lambda k, v: v  # noqa: E731
+        scale_o = (lambda k, v: v / inp["os"][k]) if self.obj_scaler else ident
+        scale_c = (lambda k, v: v / inp["cs"][k]) if (self.con_scaler and C) else ident
+        domains = [("res", a["results"], scale_o, scale_c, False)]
+        if a["user_results"] is not None:
+            domains.append(("user", a["user_results"], ident, ident, True))
+        for dom, results, so_, sc_, is_user in domains:
+            for ri, res in enumerate(results):
+                for item in res:
+                    ev = item.evaluations
+                    call = a["calls"][min(ri, len(a["calls"]) - 1)] if self.mode != "split" else a["calls"][ri]
+                    given = call["given"]["out"]
+                    req = np.asarray(vals(call["variables"]), dtype=object)
+                    if hasattr(ev, "perturbed_objectives"):
+                        po = np.asarray(vals(ev.perturbed_objectives), dtype=object)
+                        pc = np.asarray(vals(ev.perturbed_constraints), dtype=object) if ev.perturbed_constraints is not None else None
+                        props.append((f"{dom}{ri}.perturbed_constraints_reported", SB((pc is not None) == (C > 0))))
+                        off = R if self.mode == "both" else 0
+                        pvu = np.asarray(vals(ev.perturbed_variables), dtype=object) if is_user else None
+                        for r in range(R):
+                            for p in range(P):
+                                row = given[off + r * P + p]
+                                anynan = Or(*[isnan(x) for x in row])
+                                for k in range(K):
+                                    props.append((f"{dom}{ri}.perturbed_objective[{r},{p},{k}].is_value_of_labelled_row",
+                                                  Or(anynan, close(po[r, p, k], so_(k, row[k])))))
+                                if pc is not None:
+                                    for k in range(C):
+                                        props.append((f"{dom}{ri}.perturbed_constraint[{r},{p},{k}].is_value_of_labelled_row",
+                                                      Or(anynan, close(pc[r, p, k], sc_(k, row[K + k])))))
+                                props.append((f"{dom}{ri}.perturbed_row[{r},{p}].nan_fails_whole_row", Implies(anynan, all_of(isnan(po[r, p, k]) for k in range(K)))))
+                                if is_user:   # the reported user-domain perturbed vector is the row the evaluator was asked for
+                                    props.append((f"{dom}{ri}.perturbed_variables[{r},{p}].is_the_requested_row",
+                                                  all_of(close(pvu[r, p, j], req[off + r * P + p, j]) for j in range(N))))
+                    else:
+                        o = np.asarray(vals(ev.objectives), dtype=object)
+                        cc = np.asarray(vals(ev.constraints), dtype=object) if ev.constraints is not None else None
+                        props.append((f"{dom}{ri}.constraints_reported", SB((cc is not None) == (C > 0))))
+                        bidx = next(i for i, it in enumerate(res) if it is item) if self.mode == "functions" else 0
+                        for r in range(R):
+                            row = given[bidx * R + r]
                             anynan = Or(*[isnan(x) for x in row])
                             for k in range(K):
-                                props.append((f"res{ri}.perturbed_objective[{r},{p},{k}].is_value_of_labelled_row",
-                                              Or(anynan, close(po[r, p, k], scale_o(k, row[k])))))
-                            props.append((f"res{ri}.perturbed_row[{r},{p}].nan_fails_whole_row", Implies(anynan, all_of(isnan(po[r, p, k]) for k in range(K)))))
-                else:
-                    o = np.asarray(vals(ev.objectives), dtype=object)
-                    bidx = next(i for i, it in enumerate(res) if it is item) if self.mode == "functions" else 0
-                    for r in range(R):
-                        row = given[bidx * R + r]
-                        anynan = Or(*[isnan(x) for x in row])
-                        for k in range(K):
-                            props.append((f"res{ri}.b{bidx}.objective[{r},{k}].is_value_of_labelled_row",
-                                          Or(anynan, close(o[r, k], scale_o(k, row[k])))))
-                # delivered arrays are write-protected snapshots
-                for nm in ("variables", "objectives", "constraints", "perturbed_variables", "perturbed_objectives", "perturbed_constraints"):
-                    arr = getattr(ev, nm, None)
-                    if arr is not None:
-                        props.append((f"res{ri}.{nm}.write_protected", SB(not arr.flags.writeable)))
+                                props.append((f"{dom}{ri}.b{bidx}.objective[{r},{k}].is_value_of_labelled_row",
+                                              Or(anynan, close(o[r, k], so_(k, row[k])))))
+                            if cc is not None:
+                                for k in range(C):
+                                    props.append((f"{dom}{ri}.b{bidx}.constraint[{r},{k}].is_value_of_labelled_row",
+                                                  Or(anynan, close(cc[r, k], sc_(k, row[K + k])))))
+                        if is_user:
+                            vu = np.asarray(vals(ev.variables), dtype=object)
+                            props.append((f"{dom}{ri}.b{bidx}.variables.is_the_requested_row",
+                                          all_of(close(vu[j], req[bidx * R, j]) for j in range(N))))
+                    # delivered arrays are write-protected snapshots
+                    for nm in ("variables", "objectives", "constraints", "perturbed_variables", "perturbed_objectives", "perturbed_constraints"):
+                        arr = getattr(ev, nm, None)
+                        if arr is not None:
+                            props.append((f"{dom}{ri}.{nm}.write_protected", SB(not arr.flags.writeable)))
         # the evaluator's own object and arrays are untouched
         for ci, call in enumerate(a["calls"]):
             g, res = call["given"], call["result"]
@@ -336,6 +371,14 @@ def build_cases(tier):
     add(mode="both", R=2, P=2, K=1, C=1, zero=(0,), var_scaler=True)
     add(mode="split", R=2, P=2, K=1, zero=(1,))
     add(mode="split", R=3, P=1, K=2, filters=(sort_filter(0, 1),), obj_filt=(0, -1))
+    # a constraint transform alone; the results a plan step reports are transformed back to the user domain
+    add(mode="split", R=2, P=2, K=1, C=1, con_scaler=True)
+    add(mode="both", R=2, P=1, K=1, C=1, con_scaler=True, zero=(1,))
+    add(mode="both", R=2, P=1, K=2, obj_scaler=True)
+    # the same evaluator object at two successive points: the filter's selection (and the active flags) may change
+    add(mode="split", R=3, P=1, K=1, filters=(sort_filter(0, 1),), obj_filt=(0,), rounds=2)
+    add(mode="functions", R=3, K=1, zero=(1,), filters=(sort_filter(0, 1),), obj_filt=(0,))   # a filter next to a configured zero weight
+    add(mode="split", R=2, P=1, K=1, C=1, zero=(1,), filters=(sort_filter(0, 1),), obj_filt=(0,))   # objective filter only, constraints keep the configured weights
     add(mode="functions", R=2, K=1, C=1, nan_row=(0, 1, 1))
     add(mode="functions", R=2, K=1, C=1, nan_row=(0, 1, 0))
     add(mode="functions", R=2, K=1, C=1, readonly=True)
